@@ -127,10 +127,13 @@ def _c04_parts(tier):
               ("rows", 0, INF, ""), ("rows", -2, -1, ""), ("rows", 1, 2, ""), ("rows", -INF, INF, ""), ("range", -1, 1, ""),
               ("rows", 0, 0, "rolling"), ("rows", 0, 0, ""), ("rows", -2, 0, "rolling"),      # rolling:1 = the current row only
               # one bound omitted, the other strictly beyond the current row (rows:1.. / rows:..-1 / range:2.. / range:..-1)
-              ("rows", 1, INF, ""), ("rows", -INF, -1, ""), ("range", 2, INF, ""), ("range", -INF, -1, ""), ("rows", 2, INF, ""), ("rows", -INF, -2, "")]
+              ("rows", 1, INF, ""), ("rows", -INF, -1, ""), ("range", 2, INF, ""), ("range", -INF, -1, ""), ("rows", 2, INF, ""), ("rows", -INF, -2, ""),
+              # bounds given the wrong way round: inclusive bounds that select no row (the resolver uses an inverted range as its
+              # sentinel for "no frame given": F120)
+              ("rows", 2, 1, ""), ("range", 1, -1, ""), ("rows", 0, -1, "")]
     fns = ["sum", "min", "max", "average", "count", "lag", "lead", "first", "last", "rank", "rank_dense", "row_number"]
     if tier == "quick":
-        frames = [frames[i] for i in (0, 1, 2, 3, 5, 8, 9, 10, 12, 13, 15)]
+        frames = [frames[i] for i in (0, 1, 2, 3, 5, 8, 9, 10, 12, 13, 15, 18)]
     sorts = [sort(("asc", "k")), sort(("desc", "k")), sort(("asc", "b"), ("asc", "k"))]
     def placed(f, where):
         e = agg(f, b, 1)
